@@ -415,6 +415,39 @@ func reserialiseCheck(c *kernel.RunCtx, tx *bt.Tx, m *models.RTx, extended bool,
 		c.Fail("txid", "Tx.TxID", "%s: txid %s / %x, want %s", where, id, idb, want)
 		return false
 	}
+	// what the caller was handed stays what it was while the library goes on serialising (the same transaction in the
+	// other format, its id, its parts): a caller keeps Bytes() while it asks for ExtendedBytes()
+	if len(std) < 300000 {
+		var held1, held2, held3 []byte
+		if p := catch(func() {
+			held1 = tx.Bytes()
+			held2 = tx.ExtendedBytes()
+			_ = tx.TxIDBytes()
+			held3 = tx.Bytes()
+			_ = tx.Size()
+			for _, in := range tx.Inputs {
+				_ = in.Bytes(false)
+			}
+			_ = tx.ExtendedBytes()
+		}); p != "" {
+			c.Fail("panic", "Tx.Bytes", "%s: repeated serialisation panicked: %s", where, p)
+			return false
+		}
+		for i, h := range [][]byte{held1, held2, held3} {
+			ref := std
+			if i == 1 {
+				ref = ext
+			}
+			if !sameBytes(h, ref) {
+				c.Fail("aliasing", "Tx.Bytes", "%s: a serialisation the caller was still holding (result %d of Bytes, ExtendedBytes, Bytes) changed while the library produced later ones: %s", where, i, firstDiff(h, ref))
+				return false
+			}
+		}
+		c.Count("probe.held_serialisations_rechecked", 1)
+		if len(std) >= 16384 && len(std) < 65536 {
+			c.Count("probe.held_serialisation_16k_64k", 1)
+		}
+	}
 	return true
 }
 
